@@ -267,6 +267,12 @@ Theorem C06_translated_bitmap_set : forall ext fuel (b : N) (i : Z) (v : bool), 
   else GoLite.RRet (GoLite.VInt (Z.of_N (if v then N.setbit b (Z.to_N i) else N.clearbit b (Z.to_N i)))).
 Proof. exact (GoLiteC06_Codec.Bitmap_Set_is_setbit GoLiteC06.prog GoLiteC06.prog_Bitmap_Set). Qed.
 
+(* linked-log.go:encodeUvarint (the length prefix of a record) is Codec.uvarint, with binary.PutUvarint as oracle *)
+Theorem C06_translated_encodeUvarint_is_uvarint : forall fuel (n : N),
+  GoLite.call GoLiteC06.prog GoLiteC06_Codec.std_ext fuel "encodeUvarint"%string [GoLite.VInt (Z.of_N n)]
+  = GoLite.RRet (GoLite.VInts (map Z.of_N (uvarint n))).
+Proof. exact (GoLiteC06_Codec.encodeUvarint_is_uvarint GoLiteC06.prog GoLiteC06.prog_encodeUvarint). Qed.
+
 (* non-vacuity: the translated codec RUNS in the kernel: an entry is encoded, then read back field by field *)
 Example C06_translated_codec_runs :
   let e : entry := (300, 5, 432001, 6)%N in
@@ -287,3 +293,4 @@ Print Assumptions C06_translated_read_uvarint_is_rd_uv.
 Print Assumptions C06_translated_read_byte.
 Print Assumptions C06_translated_bitmap_get.
 Print Assumptions C06_translated_bitmap_set.
+Print Assumptions C06_translated_encodeUvarint_is_uvarint.
